@@ -4,174 +4,38 @@ import KamalProxy.Model.Proxy
 namespace KamalProxy.Driver.Proxy
 open KamalProxy KamalProxy.Proxy Proto
 
-def fuel : Nat := 100000
-
 def parseMode : String → Option ProbeMode
   | "ok" => some .ok
   | "fail" => some .fail
   | "hang" => some .hang
   | _ => none
 
-def setScript (w : World) (name : Bytes) (f : Script → Script) : World :=
-  if w.scripts.any (·.name = name) then { w with scripts := w.scripts.map fun s => if s.name = name then f s else s }
-  else { w with scripts := w.scripts ++ [f { name := name }] }
-
-/-- threads parked at armed hooks, as `label:key` -/
-def parkedList (w : World) : List String :=
-  (w.reqs.filterMap fun r => r.parkedAt.map fun l => s!"{l}:r{r.id}") ++
-  (w.cmds.filterMap fun c => c.parkedAt.map fun l => s!"{l}:{showB c.svc}") ++
-  (w.tgts.filterMap fun t => match t.loop with | .parked _ _ => some s!"probe.updated:{showB t.name}" | _ => none) ++
-  (w.cmds.flatMap fun c => match c.phase with
-    | .draining _ ds _ => ds.filterMap fun d =>
-        if d.phase = 1 then (getT w d.tgt).map fun t => s!"drain.deadline:{showB t.name}" else none
-    | _ => [])
-
-def observe (w : World) : World × String :=
-  ({ w with events := [] },
-   s!"t={w.now} ev=[{";".intercalate (sortStrs w.events)}] parked=[{";".intercalate (sortStrs (parkedList w))}]")
-
-/-- `key=*`: the parked thread with the smallest key at that label -/
-def resolveKey (w : World) (label key : String) : String :=
-  if key = "*" then
-    match sortStrs ((parkedList w).filter (·.startsWith (label ++ ":"))) with
-    | k :: _ => (k.drop (label.length + 1)).toString
-    | [] => "*"
-  else key
-
-def release (w : World) (label key0 : String) : World :=
-  let key := resolveKey w label key0
-  if label = "probe.updated" then
-    match w.tgts.find? fun t => showB t.name == key && (match t.loop with | .parked _ _ => true | _ => false) with
-    | some t => match t.loop with
-      | .parked changed became => if changed then probeNotify w t.id became else setT w { t with loop := .idle }
-      | _ => w
-    | none => w
-  else if label = "drain.deadline" then
-    { w with cmds := w.cmds.map fun c => c } |> fun w =>
-      match w.cmds.findSome? fun c => match c.phase with
-        | .draining lbs ds final =>
-          (ds.find? fun d => d.phase == 1 && ((getT w d.tgt).map fun t => showB t.name) == some key).map fun d => (c, lbs, ds, final, d)
-        | _ => none with
-      | some (c, lbs, ds, final, d) =>
-        let w1 := drainFinish w d
-        setC w1 { c with phase := .draining lbs (ds.map fun x => if x.tgt = d.tgt then { x with phase := 2 } else x) final }
-      | none => w
-  else if label.startsWith "req." then
-    match w.reqs.find? fun r => r.parkedAt == some label && s!"r{r.id}" == key with
-    | some r => setR w { r with parkedAt := none }
-    | none => w
-  else
-    let cands := w.cmds.filter fun c => c.parkedAt == some label && showB c.svc == key
-    match cands.foldl (fun (acc : Option Cmd) c => match acc with
-        | none => some c
-        | some a => if c.parkSeq < a.parkSeq then some c else some a) none with
-    | some c => setC w { c with parkedAt := none }
-    | none => w
+def parseOp (op : String) (kv : KV) : Option Op :=
+  match op with
+  | "target" => do pure (.target (← getB kv "name") (← (get kv "probe").bind parseMode))
+  | "hold" => do pure (.hold (← getB kv "name") (← getBool kv "v"))
+  | "arm" => do pure (.arm (← get kv "label"))
+  | "disarm" => do pure (.disarm (← get kv "label"))
+  | "deploy" => do pure (.deploy (← getNat kv "c") (← getB kv "svc") false (← getL kv "targets") (← getNat kv "dt") (← getNat kv "drt"))
+  | "rollout-deploy" => do pure (.deploy (← getNat kv "c") (← getB kv "svc") true (← getL kv "targets") (← getNat kv "dt") (← getNat kv "drt"))
+  | "pause" => do pure (.pause (← getNat kv "c") (← getB kv "svc") (← getNat kv "drt") (← getNat kv "failafter"))
+  | "stop" => do pure (.stop (← getNat kv "c") (← getB kv "svc") (← getNat kv "drt") (← getB kv "msg"))
+  | "resume" => do pure (.resume (← getNat kv "c") (← getB kv "svc"))
+  | "remove" => do pure (.remove (← getNat kv "c") (← getB kv "svc"))
+  | "rollout-set" => do pure (.rolloutSet (← getNat kv "c") (← getB kv "svc") (← getInt kv "percent") (← getL kv "allow"))
+  | "rollout-stop" => do pure (.rolloutStop (← getNat kv "c") (← getB kv "svc"))
+  | "req" => do pure (.req (← getNat kv "r") (← getB kv "svc") (← getB kv "cookie") (← getBool kv "hc"))
+  | "release" => do pure (.release (← get kv "label") (← get kv "key"))
+  | "respond" => do pure (.respond (← getNat kv "r") (← getNat kv "status"))
+  | "advance" => do pure (.advance (← getNat kv "ns"))
+  | _ => none
 
 def stepLine (w : World) (line : String) : World × String :=
   match (line.trimAscii.toString.splitOn " ").filter (· ≠ "") with
   | [] => (w, "")
   | op :: rest =>
-    let kv := parseKV rest
-    let fin (w : World) : World × String := observe (settle fuel w)
-    match op with
-    | "target" =>
-      match getB kv "name", (get kv "probe").bind parseMode with
-      | some n, some m => fin (setScript w n fun s => { s with mode := m })
-      | _, _ => (w, "bad-op")
-    | "hold" =>
-      match getB kv "name", getBool kv "v" with
-      | some n, some v => fin (setScript w n fun s => { s with hold := v })
-      | _, _ => (w, "bad-op")
-    | "arm" => match get kv "label" with
-      | some l => fin { w with armed := if w.armed.contains l then w.armed else w.armed ++ [l] }
-      | none => (w, "bad-op")
-    | "disarm" => match get kv "label" with
-      | some l => fin { w with armed := w.armed.filter (· ≠ l) }
-      | none => (w, "bad-op")
-    | "deploy" | "rollout-deploy" =>
-      match getNat kv "c", getB kv "svc", getL kv "targets", getNat kv "dt", getNat kv "drt" with
-      | some c, some svc, some ts, some dt, some drt => fin (startDeploy w c svc (op = "rollout-deploy") ts dt drt)
-      | _, _, _, _, _ => (w, "bad-op")
-    | "pause" =>
-      match getNat kv "c", getB kv "svc", getNat kv "drt", getNat kv "failafter" with
-      | some c, some svc, some drt, some fa =>
-        match installedObj w svc with
-        | none => fin (emit w s!"cmd c{c} res=notFound")
-        | some o =>
-          match getG w o.gate with
-          | none => (w, "bad-op")
-          | some g =>
-            let w1 := setG w (gatePause g fa)
-            let cmd : Cmd := { id := c, svc := svc, kind := .pause fa, drt := drt, phase := .gateSet o.id }
-            fin (park { w1 with cmds := w1.cmds ++ [cmd] } cmd "pause.gated" (.gateSet o.id))
-      | _, _, _, _ => (w, "bad-op")
-    | "stop" =>
-      match getNat kv "c", getB kv "svc", getNat kv "drt", getB kv "msg" with
-      | some c, some svc, some drt, some msg =>
-        match installedObj w svc with
-        | none => fin (emit w s!"cmd c{c} res=notFound")
-        | some o =>
-          match getG w o.gate with
-          | none => (w, "bad-op")
-          | some g =>
-            let w1 := setG w (gateSet g .stopped msg)
-            let cmd : Cmd := { id := c, svc := svc, kind := .stop msg, drt := drt, phase := .gateSet o.id }
-            fin (park { w1 with cmds := w1.cmds ++ [cmd] } cmd "stop.gated" (.gateSet o.id))
-      | _, _, _, _ => (w, "bad-op")
-    | "resume" =>
-      match getNat kv "c", getB kv "svc" with
-      | some c, some svc =>
-        match installedObj w svc with
-        | none => fin (emit w s!"cmd c{c} res=notFound")
-        | some o =>
-          match getG w o.gate with
-          | none => (w, "bad-op")
-          | some g => fin (emit (setG w (gateSet g .running [])) s!"cmd c{c} res=ok")
-      | _, _ => (w, "bad-op")
-    | "remove" =>
-      match getNat kv "c", getB kv "svc" with
-      | some c, some svc =>
-        match installedObj w svc with
-        | none => fin (emit w s!"cmd c{c} res=notFound")
-        | some o =>
-          let w1 := (o.active.toList ++ o.rollout.toList).foldl disposeLb w
-          fin (emit { w1 with table := w1.table.filter (·.1 ≠ svc) } s!"cmd c{c} res=ok")
-      | _, _ => (w, "bad-op")
-    | "rollout-set" =>
-      match getNat kv "c", getB kv "svc", getInt kv "percent", getL kv "allow" with
-      | some c, some svc, some p, some allow =>
-        match installedObj w svc with
-        | none => fin (emit w s!"cmd c{c} res=notFound")
-        | some o =>
-          if o.rollout.isNone then fin (emit w s!"cmd c{c} res=rolloutNotSet")
-          else fin (emit (setO w { o with split := some ⟨p, allow⟩ }) s!"cmd c{c} res=ok")
-      | _, _, _, _ => (w, "bad-op")
-    | "rollout-stop" =>
-      match getNat kv "c", getB kv "svc" with
-      | some c, some svc =>
-        match installedObj w svc with
-        | none => fin (emit w s!"cmd c{c} res=notFound")
-        | some o => fin (emit (setO w { o with split := none }) s!"cmd c{c} res=ok")
-      | _, _ => (w, "bad-op")
-    | "req" =>
-      match getNat kv "r", getB kv "svc", getB kv "cookie", getBool kv "hc" with
-      | some r, some svc, some ck, some hc =>
-        let q : Req := { id := r, svc := svc, cookie := ck, hc := hc }
-        fin { w with reqs := w.reqs ++ [q] }
-      | _, _, _, _ => (w, "bad-op")
-    | "release" =>
-      match get kv "label", get kv "key" with
-      | some l, some k => fin (release w l k)
-      | _, _ => (w, "bad-op")
-    | "respond" =>
-      match getNat kv "r", getNat kv "status" with
-      | some r, some st => fin (respond w r st)
-      | _, _ => (w, "bad-op")
-    | "advance" =>
-      match getNat kv "ns" with
-      | some d => observe (advance fuel w (w.now + d))
-      | none => (w, "bad-op")
-    | _ => (w, "bad-op")
+    match parseOp op (parseKV rest) with
+    | some o => observe (applyOp w o)
+    | none => (w, "bad-op")
 
 end KamalProxy.Driver.Proxy
